@@ -4,7 +4,7 @@ from fractions import Fraction as F
 from symx import core
 from symx.core import is_sym, ssum
 from symx.stubs import facade
-from harness.common import pomdp_shapes, build_pomdp, simplex
+from harness.common import pomdp_shapes, generated_pshapes, build_pomdp, simplex
 
 PROPERTY = 'C07'
 FUNCTIONS = [
@@ -24,10 +24,17 @@ ASSUMPTIONS = [
 OUTSIDE = ['more than 3 states / 2 actions / 3 observations', 'symbolic transition kernels', 'rounding']
 
 SHAPES = pomdp_shapes()
+# an observation that every kernel row lists with probability exactly 0 (it is possible nowhere)
+from harness.common import PShape as _PS
+SHAPES.append(_PS(2, 2, [[0, 1], [0, 1]], {(0, 0): {0: F(1, 4), 1: F(3, 4)}, (0, 1): {0: 1}, (1, 0): {1: F(1, 2), 0: F(1, 2)}, (1, 1): {1: 1}},
+                  s0={0: F(1, 4), 1: F(3, 4)}, gamma=F(1, 2), name='phantom-observation',
+                  obs={(0, 0): {0: 1, 2: 0}, (0, 1): {0: F(1, 4), 1: F(3, 4), 2: 0}, (1, 0): {1: 1}, (1, 1): {0: F(1, 2), 1: F(1, 2)}}, olabels=['see0', 'see1', 'never']))
+NCUR = len(SHAPES)
+SHAPES = SHAPES + generated_pshapes(60)      # thorough tier only
 
 
 def bounds(tier):
-    return dict(pomdps=[s.name for s in SHAPES], states='2..3', actions=2, observations='2..3',
+    return dict(pomdps=[s.name for s in SHAPES[:NCUR]] + ([f'{len(SHAPES) - NCUR} generated POMDP skeletons'] if tier != 'quick' else []), states='2..3', actions='1..2', observations='1..3',
                 beliefs='all points of the simplex (symbolic)', second_harness='menu beliefs x one symbolic observation row')
 
 
@@ -90,7 +97,8 @@ def bayes(sx, shape, sym_obs_row=None, belief_sel=None, declared_obs=False, perm
             pred = pomdp.predictive_observation_dist(bdist, AL[a])
             pred_items = dict(pred.items())
             ai = list(pomdp.action_list).index(AL[a])
-            pvec = pomdp.predictive_observation_vec(bvec, ai)
+            with sx.must_not_raise('predictive_observation_vec'):
+                pvec = pomdp.predictive_observation_vec(bvec, ai)
             want_tot = 0
             nb_dist = bmdp.next_state_dist(bel, AL[a])
             nb_items = list(nb_dist.items())
@@ -169,7 +177,13 @@ def bayes(sx, shape, sym_obs_row=None, belief_sel=None, declared_obs=False, perm
 
 def jobs(tier):
     o = dict(timeout_ms=15000, budget_s=(120 if tier == 'quick' else 900), max_paths=5000)
-    for i, sh in enumerate(SHAPES):
+    if tier != 'quick':
+        for i in range(NCUR, len(SHAPES)):
+            yield ('bayes', dict(shape=i), dict(o, cost=5))
+            yield ('bayes', dict(shape=i, permuted=True, declared_obs=(len(SHAPES[i].olabels) > 1)), dict(o, cost=5))
+            rows = sorted(SHAPES[i].obs)
+            yield ('bayes', dict(shape=i, sym_obs_row=list(rows[0]), belief_sel=1), o)
+    for i, sh in enumerate(SHAPES[:NCUR]):
         yield ('bayes', dict(shape=i), dict(o, cost=5))
         yield ('bayes', dict(shape=i, declared_obs=True), dict(o, cost=5))
         yield ('bayes', dict(shape=i, permuted=True), dict(o, cost=5))
